@@ -277,13 +277,13 @@ SPEC = Property(
     layers=[
         Layer("roundtrip-grid", run_items, enumerate=enum_grid, exhaustive=True,
               space="7 types x 19 boundary lengths; 4 type pairs x 19^2; 3 types x 19^2 with separator; 255 types x 4 lengths", min_nontrivial=500),
-        Layer("roundtrip-gen", run_items, strategy=item_lists, n={"quick": 3000, "thorough": 60000}, min_nontrivial=100),
-        Layer("filter-gen", run_items, strategy=lambda: item_lists(with_filter=True), n={"quick": 2000, "thorough": 40000}),
+        Layer("roundtrip-gen", run_items, strategy=item_lists, n={"quick": 6000, "thorough": 60000}, min_nontrivial=100),
+        Layer("filter-gen", run_items, strategy=lambda: item_lists(with_filter=True), n={"quick": 4000, "thorough": 40000}),
         Layer("bytes-le2", run_bytes, enumerate=enum_short, exhaustive=True, space="all 65,793 byte strings of length 0..2", min_nontrivial=60000),
         Layer("bytes-len3", run_bytes_batch, enumerate=enum_len3, exhaustive=True, tiers=("thorough",),
               space="all 16,777,216 byte strings of length 3 (one case = one 2-byte prefix x 256 last bytes)"),
         Layer("bytes-adjacent-same-type", run_bytes, enumerate=enum_adjacent, exhaustive=True, space="6 types x lengths 0..2 x 0..2 of two adjacent equal-typed items, bare / followed / preceded by another item"),
-        Layer("bytes-gen", run_bytes, strategy=byte_strings, n={"quick": 6000, "thorough": 200000}, min_nontrivial=500),
+        Layer("bytes-gen", run_bytes, strategy=byte_strings, n={"quick": 12000, "thorough": 200000}, min_nontrivial=500),
         *C15_BLE_LAYERS,
         *C15_COAP_LAYERS,
         *C15_IP_LAYERS,
